@@ -173,7 +173,7 @@ def crash_window(rng, prog, sc, nk):
 class C01(core.Property):
     id = "C01"
     driver = "drv-c01"
-    lake_targets = ["HappyProofs.C01.Props", "HappyProofs.C01.Crash", "drv-c01"]
+    lake_targets = ["HappyProofs.C01.Props", "HappyProofs.C01.Crash", "drv-c01"]   # (Crash imports TraceGate ← TraceLive ← TraceSpec)
     audit_imports = ["HappyProofs.C01.Props", "HappyProofs.C01.Crash"]
     lean_files = ["HappyModel/C01/*.lean", "HappyProofs/C01/*.lean", "HappyModel/Proto.lean", "Driver/C01.lean"]
     variants = ["current", "contgate"]
@@ -193,7 +193,25 @@ class C01(core.Property):
         "HappyModel.C01.scheduled_whatever_the_target_state",
         "HappyModel.C01.up_target_gets_event",
         "HappyModel.C01.down_target_drops_event",
+        "HappyModel.C01.engine_trace_order_clauses",
+        "HappyModel.C01.engine_trace_no_lost_event",
+        "HappyModel.C01.engine_trace_autoterm_grade",
+        "HappyModel.C01.engine_trace_satisfies_spec",
+        "HappyModel.C01.gated_event_is_exempt",
+        "HappyModel.C01.engine_trace_no_lost_event_gate",
+        "HappyModel.C01.engine_trace_satisfies_spec_gate",
+        "HappyModel.C01.process_trace_satisfies_spec",
     ]
+    partial_theorems = {
+        "HappyModel.C01.process_trace_satisfies_spec":
+            "the judge is proved to accept the trace the model writes (`traceOf`: delivery, creation and cancel lines in handler "
+            "order, tags = creation index + 1) for every machine / handler table, pre-run schedule and end time, on finished runs "
+            "shorter than the judge's own horizon of 10^9 lines; in that trace (i) the C / U lines are one per entity whose flag a "
+            "delivery changed, placed after the creations of that delivery (the harness writes one per crash / restore action, "
+            "in action order), (ii) every event is tagged, so the judge's allowance for untagged future-resumed continuations "
+            "(`laterFutureResume`) is not exercised, (iii) pre-cancelled pre-run events (`Program.initState`) are not in `init`. "
+            "The C02 Spec (futures / hooks over n/a/l/r/w/y/h/H lines) is not linked to the model in this way",
+    }
     quick_cases = 1200
     thorough_cases = 30000
     case_timeout_s = 20
